@@ -11,6 +11,7 @@ package refec
 import (
 	"crypto/sha256"
 	"math/big"
+	"sync"
 )
 
 func hexInt(s string) *big.Int {
@@ -37,7 +38,8 @@ var (
 	// HalfN is floor(n/2): s is "low" iff s <= HalfN.
 	HalfN = new(big.Int).Rsh(N, 1)
 	// Two256 is 2^256.
-	Two256 = new(big.Int).Lsh(one, 256)
+	Two256  = new(big.Int).Lsh(one, 256)
+	nMinus1 = new(big.Int).Sub(N, one)
 )
 
 // Point is an affine point of the curve or the point at infinity.
@@ -128,7 +130,13 @@ func Add(a, b Point) Point {
 // ScalarMult returns k*a by double-and-add; k is first reduced mod n (k may be
 // any non-negative integer).
 func ScalarMult(k *big.Int, a Point) Point {
+	if !a.Inf && a.X.Cmp(Gx) == 0 && a.Y.Cmp(Gy) == 0 {
+		return BaseMult(k) // same value; only reuses the cached doublings of G
+	}
 	kk := new(big.Int).Mod(k, N)
+	if kk.Cmp(nMinus1) == 0 {
+		return Neg(a) // (n-1)*a = -a for every point of the (prime order n) group
+	}
 	r := Infinity
 	for i := kk.BitLen() - 1; i >= 0; i-- {
 		r = Add(r, r)
@@ -139,8 +147,29 @@ func ScalarMult(k *big.Int, a Point) Point {
 	return r
 }
 
-// BaseMult returns k*G.
-func BaseMult(k *big.Int) Point { return ScalarMult(k, G) }
+var (
+	gPowOnce sync.Once
+	gPow     [256]Point // gPow[i] = 2^i * G
+)
+
+// BaseMult returns k*G as the sum of the points 2^i*G over the set bits of
+// k mod n (the 256 doublings of G are computed once).
+func BaseMult(k *big.Int) Point {
+	gPowOnce.Do(func() {
+		gPow[0] = G
+		for i := 1; i < 256; i++ {
+			gPow[i] = Add(gPow[i-1], gPow[i-1])
+		}
+	})
+	kk := new(big.Int).Mod(k, N)
+	r := Infinity
+	for i := 0; i < kk.BitLen(); i++ {
+		if kk.Bit(i) == 1 {
+			r = Add(r, gPow[i])
+		}
+	}
+	return r
+}
 
 // sqrtP returns a square root of v mod p and whether one exists (p = 3 mod 4).
 func sqrtP(v *big.Int) (*big.Int, bool) {
